@@ -429,6 +429,16 @@ func (s *Stream) rawFlushLocked() (err error) {
 }
 
 func (s *Stream) checkRecvFlush() (err error) {
+	// once the send side is closed, nothing this stream wrote is left to be
+	// flushed (closing it flushed or abandoned it). the writer is shared with
+	// the next stream on the transport, so anything buffered now may belong
+	// to that stream, and trying to flush it would report the send side's
+	// error to this receive instead of the queued messages or the reason the
+	// stream ended.
+	if s.sigs.send.IsSet() {
+		return nil
+	}
+
 	s.flush.Do(func() { err = s.RawFlush() })
 	if err != nil {
 		return err
